@@ -135,6 +135,7 @@ def loader_cases(draw):
             "partial_first_pass": draw(st.integers(0, 3)),
             # label arrays are per-sample along axis 0 whatever their trailing shape (id vector, column, one-hot rows,
             # several targets); same for the features
+            "getitem_during_pass": draw(st.booleans()),
             "yshape": draw(st.sampled_from(["vector", "vector", "column", "wide3", "wide2x2"])),
             "xshape": draw(st.sampled_from(["matrix", "matrix", "vector", "image"]))}
 
@@ -207,11 +208,15 @@ def check_loader(c, rec):
     if len(dl) != want_len:
         raise Violation("loader_len", f"len(loader) = {len(dl)}, expected floor(n/batch) = {want_len}; {ctx}")
 
+    peek_inside = bool(c.get("getitem_during_pass")) and t in ("none", "none_default")
+
     def one_pass(limit=None):
         out = []
         try:
             for j, batch in enumerate(dl):
                 out.append(batch)
+                if peek_inside and want_len:
+                    dl[(j * 2 + 1) % want_len]          # an indexed look-up in the middle of a pass is a pure read
                 if limit is not None and j + 1 >= limit:
                     break
         except Exception as e:  # noqa: BLE001
@@ -219,6 +224,8 @@ def check_loader(c, rec):
                             region="no_transform" if t.startswith("none") else None)
         return out
 
+    if peek_inside:
+        rec.tag("indexed_reads_during_a_pass")
     if c["partial_first_pass"] and want_len > 1:
         one_pass(limit=min(c["partial_first_pass"], want_len - 1))   # abandon a pass half-way
         rec.tag("abandoned_pass")
